@@ -20,6 +20,22 @@ type Outcome struct {
 	Type  *Term  `json:"type,omitempty"`
 	Panic string `json:"panic,omitempty"`
 	Err   string `json:"err,omitempty"`
+	// Raw is the type object that was reported; Reread reads it again later.
+	Raw types.Type `json:"-"`
+}
+
+// Reread reads the reported type object again. A type that was right when it
+// was reported and differs now has been rewritten behind the caller's back
+// (state shared between values); the result is then an outcome of its own.
+func (o Outcome) Reread() Outcome {
+	if o.NA || o.Raw == nil {
+		return Outcome{NA: true}
+	}
+	var t *Term
+	if msg, p := mbt.Guard(func() { t = FromType(o.Raw) }); p {
+		return Outcome{Panic: msg}
+	}
+	return Outcome{Type: t, Raw: o.Raw}
 }
 
 // Observe runs f and records the type it returns, or its panic / error.
@@ -35,7 +51,7 @@ func Observe(f func() (types.Type, error)) Outcome {
 	case t == nil:
 		return Outcome{Err: "nil type"}
 	}
-	return Outcome{Type: FromType(t)}
+	return Outcome{Type: FromType(t), Raw: t}
 }
 
 var (
